@@ -16,20 +16,30 @@ VERIF = "/verif"
 PY = "/venv/bin/python"
 
 
+_ROOT = [None]
+
+
 def _one(pid: str):
+    env = dict(os.environ)
+    if _ROOT[0]:
+        env["VERIF_REPO"] = _ROOT[0]
     p = subprocess.run(
         [PY, "-m", "sa.check", pid, "--tier", "quick", "--no-evidence"],
-        cwd=VERIF, capture_output=True, text=True, timeout=600,
+        cwd=VERIF, capture_output=True, text=True, timeout=600, env=env,
     )
     out = p.stdout + p.stderr
     lines = [
         l for l in out.splitlines()
         if l.startswith("  ") or l.startswith("VIOLATION") or l.startswith("ANALYSIS-ERROR")
     ]
+    if _ROOT[0]:
+        lines = [l.replace(_ROOT[0] + "/", "") for l in lines]
     return pid, p.returncode, lines, out
 
 
-def run_all(full: bool = False) -> dict:
+def run_all(full: bool = False, root: str | None = None) -> dict:
+    """``root``: analyse this tree instead of /repo (a scratch worktree with a patch applied)."""
+    _ROOT[0] = root
     man = json.load(open(os.path.join(VERIF, "MANIFEST.json")))
     pids = [c["property_id"] for c in man["checks"]]
     fired = {}
@@ -42,6 +52,30 @@ def run_all(full: bool = False) -> dict:
     return fired
 
 
+class Scratch:
+    """A detached scratch worktree of /repo HEAD with an optional patch applied; removed on exit."""
+
+    def __init__(self, patch: str | None = None, prefix: str = "verifscratch_"):
+        import tempfile
+
+        self.patch = patch
+        self.dir = tempfile.mkdtemp(prefix=prefix, dir="/tmp")
+        os.rmdir(self.dir)
+        self.applied = None
+
+    def __enter__(self):
+        subprocess.run(["git", "-C", "/repo", "worktree", "add", "-q", "--detach", self.dir, "HEAD"], check=True)
+        if self.patch:
+            r = subprocess.run(["git", "apply", self.patch], cwd=self.dir, capture_output=True, text=True)
+            self.applied = r.returncode == 0
+            self.apply_error = r.stderr[-400:]
+        return self
+
+    def __exit__(self, *a):
+        subprocess.run(["git", "-C", "/repo", "worktree", "remove", "--force", self.dir])
+        return False
+
+
 if __name__ == "__main__":
     res = run_all(full="--full" in sys.argv)
     for pid, r in sorted(res.items()):
@@ -50,3 +84,4 @@ if __name__ == "__main__":
             print("   ", l)
     print("fired:", sorted(res))
     sys.exit(1 if res else 0)
+
